@@ -30,6 +30,17 @@ class Gen:
         self.level_ids = {}
         self.code = []
         self.done = set()
+        # documented tag path of every composite: <pkg>::schema::types::<composite>[::<inline composite>...]
+        self.comp_tag = {}
+
+        def walk(c, tag):
+            self.comp_tag[id(c)] = tag
+            for e in c.elements:
+                if e.kind == "composite":
+                    walk(e, tag + "::" + e.name)
+        for ty in schema.types:
+            if ty.kind == "composite":
+                walk(ty, "::%s::schema::types::%s" % (self.pkg, ty.name))
 
     # ---------------------------------------------------------------- ids
     def cid(self, comp):
@@ -73,15 +84,18 @@ class Gen:
         self.done.add(("c", k))
         m = self.m
         lay, size = m.composite_layout(comp)
+        # element tags are spelled through the composite's own documented tag path, not through the tag of the
+        # field/ref that leads here (those merely inherit from it, and a field named like an element would hide it)
+        CT = self.comp_tag[id(comp)]
         for mode in ("ra", "tag"):
             body = []
             for e, off in lay:
                 tgt = m.deref(e)
-                acc = self.get_expr("c", e.name, "CT", mode)
+                acc = self.get_expr("c", e.name, CT, mode).replace("typename ", "")
                 path = 'p + ".%s"' % e.name
                 if tgt.kind == "composite":
                     j = self.gen_composite(tgt)
-                    body.append("    dC%d_%s<typename CT::%s>(%s, %s, z);" % (j, mode, e.name, path, acc))
+                    body.append("    dC%d_%s<%s::%s>(%s, %s, z);" % (j, mode, CT, e.name, path, acc))
                 elif off is None:
                     body.append("    vrt::prc(%s, %s);" % (path, acc))
                 else:
@@ -113,14 +127,14 @@ class Gen:
             for e, off in elems:
                 tgt = m.deref(e)
                 gmode = "ra" if form == "named" else "tag"
-                acc = self.get_expr("c", e.name, "CT", gmode)
+                acc = self.get_expr("c", e.name, CT, gmode).replace("typename ", "")
                 if tgt.kind == "composite":
                     j = self.gen_composite(tgt)
-                    body.append("    sC%d_%s<typename CT::%s>(%s, t);" % (j, form, e.name, acc))
+                    body.append("    sC%d_%s<%s::%s>(%s, t);" % (j, form, CT, e.name, acc))
                 elif tgt.kind == "type" and tgt.is_array():
                     body.append(self.array_assign(acc, form))
                 else:
-                    body.append("    " + self.set_stmt("c", e.name, "CT", form, "vrt::mk<decltype(c.%s())>(t.u64())" % e.name))
+                    body.append("    " + self.set_stmt("c", e.name, CT, form, "vrt::mk<decltype(c.%s())>(t.u64())" % e.name).replace("typename ", ""))
             self.code.append(
                 "template<typename CT, typename V>\nstatic void sC%d_%s(V c, vrt::tokens& t)\n{\n    (void)c; (void)t;\n%s\n}\n"
                 % (k, form, "\n".join(body)))
